@@ -158,7 +158,7 @@ impl Property for DrcpProp {
     }
     fn cases(&self, tier: Tier) -> u64 {
         match tier {
-            Tier::Quick => 600_000,
+            Tier::Quick => 1_200_000,
             Tier::Thorough => 10_000_000,
         }
     }
